@@ -26,6 +26,19 @@ CLAIMS = {
             "the end of the last matched unit, failure only below MIN), C19_rep_bounds_impl / C19_rep_fails_impl (real parse path, via "
             "C05), C19_array; witness C19_refuted_before_fix. Tie: bounds family (all MIN, MAX incl. MIN > MAX) with the reference "
             "interpreter and an independent counting oracle.", "DESIGN.md §4 C19"),
+    "C08": ("Tie: every catalogue shape x every Span(s,a,b) / Position(s,a) sub-input vs the fresh slice shifted by a (verdicts, offsets, "
+            "trees, stack, tracker, tokens), model vs code on all three cursor forms; byte-level model of the three cursors incl. the "
+            "repaired skip_until. Theorem status: see Properties/C08.v.", "DESIGN.md §4 C08"),
+    "C12": ("Theorems C12_line_col / C12_line_of / C12_boundaries for all valid UTF-8 strings and boundary offsets (CR/LF state machine "
+            "collapses to the declarative spec; unreachable branches proved unreachable); tie: exhaustive small strings + random texts "
+            "against pest::Position (oracle) and the model.", "DESIGN.md §4 C12"),
+    "C13": ("Theorems C13_new / C13_get / C13_split / C13_lines_span / C13_lines / C13_merge / C13_eq for all strings and spans; tie: "
+            "exhaustive small strings x all (start,end) pairs x all sub-ranges / span pairs against pest::Span and the model.",
+            "DESIGN.md §4 C13"),
+    "C14": ("Theorems C14_total_repaired / C14_total_position (no panic for any input), C14_rows_of_the_code (exact characterisation), "
+            "C14_rows_partial under the decidable exclusion of the known class, witnesses C14_refuted_*; tie: exhaustive small strings x "
+            "all spans/positions incl. recording FormatOption against the model and an independent oracle; known finding F4b "
+            "(span starting at a line start is rendered from the previous line; pinned by an existing test).", "DESIGN.md §4 C14"),
     "C15": ("Theorems C15_preorder / C15_levelorder / C15_render / C15_thin for every rose tree (loops = recursive specs, fuel bound "
             "proved); tie: real iterators.rs on all tree shapes up to the tier's node bound + random trees.", "DESIGN.md §4 C15"),
 }
